@@ -80,6 +80,10 @@ func c11Faults() []c11Fault {
 		}, false},
 		// a call site that called a function the first time it ran meets a name that is shadowed by a number the second time
 		{"call site whose name is shadowed on its second evaluation", func() Expr { return Bin("+", CallE(V("viaSite"), N("0")), CallE(V("shadow"), N("3"))) }, false},
+		// patterns that are invalid only because of a repetition in braces
+		{"invalid repeat count", func() Expr { return Bin("~", S("aaa"), S("a{3,2}")) }, false},
+		{"repeat count beyond the limit", func() Expr { return Bin("!~", S("x"), S("x{1001}")) }, false},
+		{"repetition without an operand", func() Expr { return Bin("~", S("{2}"), S("{2}{3}")) }, false},
 		{"benign number", func() Expr { return N("7") }, true},
 		{"benign string", func() Expr { return S("s") }, true},
 		{"benign array", func() Expr { return V("arrv") }, true},
@@ -164,6 +168,9 @@ func c11Slots() []c11Slot {
 		stmtSlot("++ target index", true, func(e func() Expr) Stmt { return Ex(&Postfix{"++", Idx(V("objv"), Bin("+", S("n"), e()))}) }),
 		exprSlot("user call argument", true, func(e Expr) Expr { return CallE(V("idf"), e) }),
 		exprSlot("native call argument", true, func(e Expr) Expr { return CallE(V("num"), e) }),
+		exprSlot("surplus argument of a user function", true, func(e Expr) Expr { return CallE(V("idf"), N("1"), e) }),
+		exprSlot("second surplus argument after a traced one", true, func(e Expr) Expr { return CallE(V("idf"), N("1"), CallE(V("tr")), e) }),
+		exprSlot("surplus argument of a parameterless function", true, func(e Expr) Expr { return Bin("+", CallE(V("tr"), e), N("0")) }),
 		exprSlot("callee", true, func(e Expr) Expr { return Bin("+", N("1"), N("1")) }), // replaced below
 		exprSlot("array literal element", true, func(e Expr) Expr { return Arr_(CallE(V("tr")), e, CallE(V("tr"))) }),
 		exprSlot("object literal element", true, func(e Expr) Expr {
